@@ -27,6 +27,7 @@ mod c15;
 mod c11p;
 mod c09n;
 mod c18_orders;
+mod c17_deg;
 mod rng;
 
 use std::collections::HashMap;
